@@ -70,7 +70,7 @@ def run(chk: Check) -> int:
         plans = [(kind, 2, 2, R, rz) for kind in I.KINDS for R in (0, 1) for rz in (True, False)]
     else:
         plans = [(kind, nt, T, R, rz) for kind in I.KINDS for nt in (1, 2, 3) for T in (1, 2, 3)
-                 for R in (0, 1, 2) for rz in (True, False) if (R + 1) * T <= 9 and nt <= T + 1]
+                 for R in (0, 1, 2) for rz in (True, False) if (R + 1) * T <= 6 and nt <= T + 1]
     for kind, nt, T, R, rz in plans:
         # attempts 1..retries+1 are all that correct code ever starts; a retries+2-nd evaluation (started only
         # by over-retrying code, which the evaluation count and the model catch at its submission) succeeds
